@@ -77,7 +77,8 @@ class C09(object):
     required_counters = ('SIM.judged', 'SIMEX1.judged', 'PC.judged', 'iterative.judged', 'exact_equalities.judged',
                          'offgrid.judged', 'nonzero_initial_stocks.judged', 'PAIR.judged', 'book_exogenous_overwritten.cases',
                          'parameters_as_exogenous_series.cases', 'solver_object_shared_with_an_earlier_model.cases',
-                         'PC.initial_bills_explicitly_zero.cases')
+                         'PC.initial_bills_explicitly_zero.cases',
+                         'PC.initial_bills_left_to_the_portfolio_rule.cases')
 
     def n_cases(self, tier):
         return 60 if tier == 'quick' else 6000
@@ -110,7 +111,12 @@ class C09(object):
                 # one solver object shared by two models (a parameter sweep that re-uses its configured solver)
                 'shared_solver': (idx // 7) % 3 == 2,
                 # PC: all initial wealth held as cash - the initial bill holding is an explicit 0.0
-                'B0_zero': which == 'PC' and (idx // 7) % 4 == 1}
+                'B0_zero': which == 'PC' and (idx // 7) % 4 == 1,
+                # PC started from household wealth and disposable income only: the initial bill holding is what the
+                # portfolio rule gives at k=0 (the solver derives it from the declared values)
+                'B0_derived': which == 'PC' and (idx // 7) % 4 == 3}
+        if case['B0_derived']:
+            case['book_first'] = False      # the builder's book mode declares its own initial bill holding
         if which == 'PAIR':
             case['T'] = min(T, 10)
             case['members'] = []
@@ -128,7 +134,8 @@ class C09(object):
         return case
 
     # ------------------------------------------------------------------------------------------
-    def configure(self, b, mod, which, p, G, r, V0, YD0, T, prefix='', params_exogenous=False, B0_zero=False):
+    def configure(self, b, mod, which, p, G, r, V0, YD0, T, prefix='', params_exogenous=False, B0_zero=False,
+                  B0_derived=False):
         """Set parameters/paths/initial stocks of one book economy through the public API; returns
         (closed form, {symbol: series name})."""
         c = b.Country
@@ -154,9 +161,14 @@ class C09(object):
             B0 = float(min(max(B0, 0.1 * V0), 0.9 * V0))
             if B0_zero:
                 B0 = 0.0
-            for role, var, val in (('HH', 'F', V0), ('HH', 'DEM_DEP', B0), ('HH', 'DEM_MON', V0 - B0),
-                                   ('TRE', 'F', -V0), ('TRE', 'SUP_DEP', V0), ('CB', 'DEM_DEP', V0 - B0),
-                                   ('HH', 'AfterTax', YD0)):
+            if B0_derived:
+                B0 = V0 * (p['l0'] + p['l1'] * r[0]) - p['l2'] * YD0
+                ics = (('HH', 'F', V0), ('TRE', 'F', -V0), ('HH', 'AfterTax', YD0))
+            else:
+                ics = (('HH', 'F', V0), ('HH', 'DEM_DEP', B0), ('HH', 'DEM_MON', V0 - B0),
+                       ('TRE', 'F', -V0), ('TRE', 'SUP_DEP', V0), ('CB', 'DEM_DEP', V0 - B0),
+                       ('HH', 'AfterTax', YD0))
+            for role, var, val in ics:
                 c[role].AddInitialCondition(var, val)
             cf = closed_pc(p, G, r, V0, B0, T)
             names.update({'T': prefix + 'TRE__T', 'V': prefix + 'HH__F', 'B': prefix + 'HH__DEM_DEP',
@@ -266,7 +278,10 @@ class C09(object):
         mod.EquationSolver.ParameterErrorTolerance = 1e-10
         V0 = case['V0']
         cf, names = self.configure(b, mod, which, p, case['G'], case['r'], V0, case['YD0'], T,
-                                   params_exogenous=bool(case.get('params_exogenous')), B0_zero=bool(case.get('B0_zero')))
+                                   params_exogenous=bool(case.get('params_exogenous')), B0_zero=bool(case.get('B0_zero')),
+                                   B0_derived=bool(case.get('B0_derived')))
+        if case.get('B0_derived'):
+            rec.count('PC.initial_bills_left_to_the_portfolio_rule.cases')
         if case.get('B0_zero'):
             rec.count('PC.initial_bills_explicitly_zero.cases')
         if case.get('params_exogenous'):
